@@ -16,6 +16,25 @@ from modelio import enc, enc_dict  # noqa: E402
 assert os.path.realpath(os.path.dirname(os.path.dirname(sf.__file__))) == os.path.realpath(REPO), sf.__file__
 
 TAPE = []
+LAST_FRAME = None
+
+
+def note_frame(e):
+    """name of the innermost frame inside the selfies package that the exception passed through"""
+    global LAST_FRAME
+    LAST_FRAME = None
+    tb = e.__traceback__
+    pkg = os.path.join(os.path.realpath(REPO), "selfies")
+    counts = {}
+    while tb is not None:
+        fn = os.path.realpath(tb.tb_frame.f_code.co_filename)
+        if fn.startswith(pkg):
+            LAST_FRAME = tb.tb_frame.f_code.co_name
+            counts[LAST_FRAME] = counts.get(LAST_FRAME, 0) + 1
+        tb = tb.tb_next
+    if isinstance(e, RecursionError) and counts:
+        # root cause of a stack overflow: the function that fills the stack
+        LAST_FRAME = max(counts, key=counts.get)
 
 
 class RecordingSet(set):
@@ -57,9 +76,11 @@ def real_decoder(s, compat=False, attribute=False):
         if attribute:
             return "ok\t" + enc(r[0]) + "\t" + enc_maps(r[1])
         return "ok\t" + enc(r)
-    except RecursionError:
+    except RecursionError as e:
+        note_frame(e)
         return "err\tRecursionError"
     except Exception as e:  # noqa
+        note_frame(e)
         return "err\t" + exc_name(e)
 
 
@@ -72,9 +93,11 @@ def real_encoder(s, strict=True, attribute=False):
             out = "ok\t" + enc(r[0]) + "\t" + enc_maps(r[1])
         else:
             out = "ok\t" + enc(r)
-    except RecursionError:
+    except RecursionError as e:
+        note_frame(e)
         out = "err\tRecursionError"
     except Exception as e:  # noqa
+        note_frame(e)
         out = "err\t" + exc_name(e)
     return out, list(TAPE)
 
